@@ -138,7 +138,14 @@ def write_crate(ws, name, c):
     os.makedirs(os.path.join(d, 'src'), exist_ok=True)
     r = repo()
     feats = ', '.join(f'"{f}"' for f in c['features'])
-    if c.get('bare'):
+    if c.get('macro_std') is False:
+        # a std user crate that turned nutype's default features off (the generator's own `std` feature is off)
+        deps = f'''nutype = {{ path = "{r}/nutype", default-features = false, features = [{feats}] }}
+serde = "1"
+arbitrary = "1"
+regex = "1"
+'''
+    elif c.get('bare'):
         deps = f'nutype = {{ path = "{r}/nutype" }}\n'
     elif c['std']:
         deps = f'''nutype = {{ path = "{r}/nutype", features = [{feats}] }}
@@ -240,9 +247,11 @@ def mir_facts(tier):
                 'RUSTC_WORKSPACE_WRAPPER': NUMIR,
                 'NUMIR_OUT': out,
             })
-            groups = {'wsfull': {n: c for n, c in crates.items() if c['std'] and not c.get('bare')},
+            groups = {'wsfull': {n: c for n, c in crates.items() if c['std'] and not c.get('bare') and c.get('macro_std') is not False},
                       'wsbare': {n: c for n, c in crates.items() if c.get('bare')},
-                      'wsnostd': {n: c for n, c in crates.items() if not c['std']}}
+                      'wsnostd': {n: c for n, c in crates.items() if not c['std']},
+                      'wsnsf': {n: c for n, c in crates.items() if c.get('macro_std') is False}}
+            groups = {g: cs for g, cs in groups.items() if cs}
             dropped = []
             fatal = {}
 
